@@ -10,7 +10,7 @@ CONSTANTS
   SeekMax = 4
   Ops = TRUE
   Hints = {}
-  IterSingleLine = TRUE
+  IterSingleLine = FALSE
   Emit = TRUE
 SPECIFICATION RSpec
 INVARIANT RTypeOK
